@@ -48,6 +48,18 @@ TARGETS = [
     ("localcider/backend/sequence.py", "Sequence", "linearDenistyOfAAs", "flanksDensity", "C10Src", {"ty": "Int", "outputs": ["flank_start", "flank_end", "nblobs"]}),
 
 ]
+# the interface (parameter list) each translated fragment had when the CxxSrc proofs were written: the quantities of the object the text
+# reads.  A rewrite that reads other quantities (a new private helper, a cached count, ...) no longer FITS the statement of the proof -
+# the fragment is then reported as unavailable (module skipped, (K) still ties the function), exactly like text the translator cannot read
+EXPECTED_PARAMS = {
+    "phasePlotRegion": ["FCR", "NCPR", "Fplus", "Fminus"], "kappaDecision": ["deltaMax", "delta"],
+    "sigmaDecision": ["countNeut", "len", "NCPR", "FCR"], "checkWindow": ["bloblen", "len_seq"], "verifyPH": ["pH"],
+    "insideRelevant": ["idx", "relevant_max", "relevant_min"], "fplusSrc": ["countPos", "len"], "fminusSrc": ["countNeg", "len"],
+    "fcrSrc": ["countPos", "countNeg", "len"], "ncprSrc": ["countPos", "countNeg", "len"], "ferSrc": ["countPos", "countNeg", "count_P", "len"],
+    "mncSrc": ["NCPR"], "deltaSrc": ["deltaForm_5", "deltaForm_6"], "deltaTermSrc": ["blob", "bpos", "bneg", "bloblen", "sigma", "nblobs"],
+    "flanksNCPR": ["bloblen", "len"], "flanksFCR": ["bloblen", "len"], "flanksSigma": ["bloblen", "len"], "flanksHydro": ["bloblen", "len"],
+    "flanksHydro2": ["bloblen", "len"], "flanksDensity": ["bloblen", "targetAAs", "len"],
+}
 SKIP_CALLS = {"warning_message", "status_message", "print"}
 
 
@@ -254,6 +266,8 @@ def main():
                 tr = Tr(args, opt)
                 rty = "Rat"
             body = tr.block(stmts, set(), 1)
+            if lean_name in EXPECTED_PARAMS and list(tr.params) != EXPECTED_PARAMS[lean_name]:
+                raise Unsupported("the text now reads (%s), the proof is stated over (%s)" % (", ".join(tr.params), ", ".join(EXPECTED_PARAMS[lean_name])))
             params = " ".join("(%s : %s)" % (p, tr.ty) for p in tr.params)
             defs.append("/-- translated from %s:%s.%s (line %d) -/\ndef %s %s : Except Unit (%s) :=\n%s\n" % (
                 path, cls, fn, f.lineno, lean_name, params, rty, body))
